@@ -78,6 +78,9 @@ class RamfileBackend(SourcedStateBackend):
         for snapshot in snapshots:
             if not snapshot.endswith(".state"):
                 continue
+            if not os.path.exists(os.path.join(vm_dir, snapshot)):
+                logging.warning(f"Dead link {snapshot} in {vm_dir} is not a state")
+                continue
             size = os.stat(os.path.join(vm_dir, snapshot)).st_size
             state = snapshot[:-6]
             logging.debug(
